@@ -189,9 +189,11 @@ def struct_children(g, n_cp=None):
     # a random tree of paths
     paths = []
     frontier = [""]
+    uni = ["ab", "a\u00e9", "a\u00f1b", "\u00fc", "a\u0431", "\u00e9a", "ab\u00e9"]      # identifiers are Unicode; sibling paths may share a byte prefix
+    r.shuffle(uni)
     for _ in range(r.randint(1, 4)):
         base = r.choice(frontier)
-        seg = f"p{g.mark()}"
+        seg = f"p{g.mark()}" if (not uni or not g.chance(0.12)) else uni.pop()
         p = f"{base}.{seg}" if base else seg
         paths.append(p)
         frontier.append(p)
